@@ -175,4 +175,19 @@ theorem mem_iterSymbols {es : List Entry} {p : Nat × Name} :
   · rintro ⟨e, he, h1, h2⟩
     exact ⟨e, he, p.2, h2, by cases p; simp at h1 ⊢; exact h1⟩
 
+theorem fileOffsetToSvma_no_panic (ranges : List Range) (h : ∀ r ∈ ranges, r.fileOffset + r.size < U64)
+    (o : Nat) : fileOffsetToSvma ranges o ≠ .panic := by
+  induction ranges with
+  | nil => simp [fileOffsetToSvma]
+  | cons r rs ih =>
+    have hr := h r (by simp)
+    have ih' := ih (fun x hx => h x (List.mem_cons_of_mem _ hx))
+    unfold fileOffsetToSvma
+    split
+    · rw [if_neg (by omega)]
+      split
+      · split <;> simp
+      · exact ih'
+    · exact ih'
+
 end SymList
